@@ -70,7 +70,8 @@ fn c14_hostile_field_content() {
     let mut cases = 0;
     for coin in coins {
         for place in 0..3usize {
-            let base = match observe(&build(&[0x51], place), coin, place) { Ok(b) => b, Err(m) => { fail(suite, "C14:baseline_runs", &format!("{} place {}", coin, place), &m, "Ok"); continue; } };
+            let benign = p2pkh_script(&[0x46; 20]);
+            let base = match observe(&build(if place == 0 { &benign[..] } else { &[0x51][..] }, place), coin, place) { Ok(b) => b, Err(m) => { fail(suite, "C14:baseline_runs", &format!("{} place {}", coin, place), &m, "Ok"); continue; } };
             for (i, p) in ps.iter().enumerate() {
                 if !thorough && place > 0 && i % 4 != 0 { continue; }
                 cases += 1;
